@@ -65,10 +65,14 @@ func listDir(dir string) ([]dirEntryOut, bool) {
 func runFiles(raw json.RawMessage) interface{} {
 	var in filesIn
 	must(json.Unmarshal(raw, &in))
-	root, err := os.MkdirTemp("", "verif-files")
+	// the generated tree sits two levels below a private directory: `../` and `../../` typed at its top
+	// must not reach the shared temp directory, whose content changes while the case runs
+	base, err := os.MkdirTemp("", "verif-files")
 	must(err)
-	root, _ = filepath.EvalSymlinks(root)
-	defer os.RemoveAll(root)
+	base, _ = filepath.EvalSymlinks(base)
+	defer os.RemoveAll(base)
+	root := filepath.Join(base, "up", "root")
+	must(os.MkdirAll(root, 0o755))
 	sub := func(s string) string { return strings.ReplaceAll(s, "$ROOT", root) }
 	unsub := func(s string) string { return strings.ReplaceAll(s, root, "$ROOT") }
 	home := filepath.Join(root, "home")
